@@ -197,9 +197,6 @@ func c03Feed(seq []c03lib.Hex, hook bool) c03lib.Outcome {
 	if n := m.Count(); n != 0 {
 		return c03lib.Outcome{Class: cls, Clause: "sessions left after cleanup", Detail: fmt.Sprint(n)}
 	}
-	if lg.news != lg.closes+0 && lg.closes > lg.news {
-		return c03lib.Outcome{Class: cls, Clause: "more sessions closed than opened"}
-	}
 	return c03lib.Outcome{Class: cls}
 }
 
@@ -214,6 +211,9 @@ func c03CheckSent(io *c03IO, want [][]byte, addr string) (string, string) {
 		}
 		m, err := protocol.ParseUDPMessage(c03lib.Fresh(dg))
 		if err != nil {
+			if l, w, ok := c03lib.ReadVarint(dg[8:]); ok && 8+w+int(l) == len(dg) {
+				continue // reply to an empty UDP packet: no payload byte, the client skips it
+			}
 			return "sent datagram does not parse at the client", err.Error()
 		}
 		if m.Addr != addr {
@@ -304,6 +304,7 @@ func c03Alphabet(sessions []uint32, hdrs [][3]int, addrs []string) [][]byte {
 
 func c03Enumerate(sh *evidence.Shard) {
 	r := c03lib.NewRunner(sh, c03Unit, c03Exec)
+	defer r.Close()
 	th := r.Thorough()
 
 	// --- session manager: sequences of datagrams ----------------------------------------------
@@ -316,8 +317,15 @@ func c03Enumerate(sh *evidence.Shard) {
 		depth int
 		desc  map[string]any
 	}
-	a3 := c03Alphabet([]uint32{1, 2}, hdrs, []string{"a:1", "deny:1", "bad:1"})
-	cfgs := []cfg{{"udpSessionManager.feed/seq3", a3, 3, map[string]any{"sessions": []int{1, 2}, "pktid_fragid_fragcount": hdrs, "addr": []string{"a:1 (allowed)", "deny:1 (outbound policy refuses)", "bad:1 (dial fails)"},
+	qh, qa := hdrs, []string{"a:1", "deny:1", "bad:1"}
+	if !th {
+		qh, qa = [][3]int{{0, 0, 1}, {0, 0, 0}, {5, 0, 2}, {5, 1, 2}, {5, 2, 2}, {5, 255, 255}}, []string{"a:1", "bad:1"}
+	}
+	a3 := c03Alphabet([]uint32{1, 2}, qh, qa)
+	if !th {
+		a3 = append(a3, c03Wire(1, 0, 0, 1, "deny:1", "x"), c03Wire(2, 0, 0, 1, "deny:1", "x"))
+	}
+	cfgs := []cfg{{"udpSessionManager.feed/seq3", a3, 3, map[string]any{"sessions": []int{1, 2}, "pktid_fragid_fragcount": qh, "addr": []string{"a:1 (allowed)", "deny:1 (outbound policy refuses; quick: unfragmented only)", "bad:1 (dial fails)"},
 		"malformed": "empty, 7-byte header, address length 0, no payload byte, address length 2049", "hook": "off / rewrites the address", "messages": len(a3), "max_depth": 3}}}
 	if th {
 		a4 := c03Alphabet([]uint32{1, 2}, [][3]int{{0, 0, 1}, {5, 0, 2}, {5, 1, 2}, {5, 2, 2}, {6, 1, 2}, {5, 254, 255}}, []string{"a:1", "bad:1"})
@@ -349,21 +357,11 @@ func c03Enumerate(sh *evidence.Shard) {
 		}
 		pays = append(pays, 2047, 2048, 2049, 4071, 4079, 4080, 4081, 4095, 4096)
 	}
-	p := r.Part("sendMessageAutoFrag/limits", map[string]any{"limit": "0,1..40, hdr+{-1,0,1,2,3,4,8,15,16,17,32}, 1100..1200, 1452, 65535", "addr_len": addrLens,
+	p := r.Part("sendMessageAutoFrag/limits", map[string]any{"limit": "as frag unit, without -1: " + c03lib.DatagramLimitsDoc, "addr_len": addrLens,
 		"payload_len": fmt.Sprintf("%d values: %v..", len(pays), pays[:min(len(pays), 17)]), "buffer": "protocol.MaxUDPSize as in receiveLoop"}, nil)
 	for _, al := range addrLens {
 		hdr := 8 + len(c03lib.VarintMin(uint64(al))) + al
-		limits := []int{0}
-		for i := 1; i <= 40; i++ {
-			limits = append(limits, i)
-		}
-		for _, d := range []int{-1, 0, 1, 2, 3, 4, 8, 15, 16, 17, 32} {
-			limits = append(limits, hdr+d)
-		}
-		for i := 1100; i <= 1200; i++ {
-			limits = append(limits, i)
-		}
-		limits = append(limits, 1452, 65535)
+		limits := c03lib.DatagramLimits(hdr, th)[1:]
 		for _, lim := range limits {
 			for _, pl := range pays {
 				r.Do(p, func() *c03lib.Case {
